@@ -7,7 +7,7 @@ use lef21::LefLibrary;
 use serde_json::{json, Value};
 
 pub fn commands() -> Vec<(&'static str, CmdFn)> {
-    vec![("lef_s2i", lef_s2i), ("lef_parse", lef_parse), ("lef_lex", lef_lex), ("lef_fault", lef_fault), ("lef_prefixes", lef_prefixes), ("lef_scaling", lef_scaling)]
+    vec![("lef_s2i", lef_s2i), ("lef_parse", lef_parse), ("lef_lex", lef_lex), ("lef_fault", lef_fault), ("lef_prefixes", lef_prefixes), ("lef_scaling", lef_scaling), ("lef_to_raw", lef_to_raw)]
 }
 
 fn strip_vk(v: &Value) -> Value {
@@ -195,4 +195,37 @@ fn lef_scaling(case: &Value) -> Value {
         rows.push(json!({"kind": kind, "n": n0, "times": ts}));
     }
     json!({"id": id(case), "outcome":"ok", "rows": rows})
+}
+
+/// C16: LEF text -> LefLibrary -> raw abstract; {toks, must_err, expect}
+fn lef_to_raw(case: &Value) -> Value {
+    use crate::rawabs::*;
+    let want = norm_maps(&case["expect"]);
+    let must_err = getb(case, "must_err");
+    let mut probs = Vec::new();
+    for sp in 0..N_SP {
+        let text = render(geta(case, "toks"), 0, 0, sp);
+        let lib = match guarded(|| parse_str(&text)) {
+            Ok(Ok(l)) => l,
+            other => { probs.push(json!({"stage":"parse","outcome": if other.is_err() {"panic"} else {"err"}, "sp": sp, "text": trunc(&json!(text))})); continue; }
+        };
+        match guarded(|| layout21raw::lef::LefImporter::import(&lib, None)) {
+            Err(p) => probs.push(json!({"stage":"import","outcome":"panic","msg":p,"sp":sp})),
+            Ok(Err(e)) => { if !must_err { probs.push(json!({"stage":"import","outcome":"err","msg":err_str(e),"sp":sp})); } }
+            Ok(Ok(rl)) => {
+                if must_err { probs.push(json!({"stage":"import","outcome":"rounded-instead-of-error","sp":sp,"text":trunc(&json!(text))})); continue; }
+                let layers = rl.layers.read().unwrap();
+                let cells: Vec<Value> = rl.cells.iter().map(|c| { let c = c.read().unwrap();
+                    match &c.abs { Some(a) => abstract_json(a, &layers), None => json!({"name": c.name, "no_abstract": true}) } }).collect();
+                let got = json!({"cells": cells});
+                if let Some(d) = json_diff(&want, &got, "") {
+                    probs.push(json!({"stage":"import","outcome":"differs","path":d.0,"want":d.1,"got":d.2,"sp":sp}));
+                }
+                if rl.units != layout21raw::Units::Angstrom { probs.push(json!({"stage":"import","outcome":"units-not-1e-4-micron","sp":sp})); }
+            }
+        }
+    }
+    let n = probs.len();
+    probs.truncate(4);
+    json!({"id": id(case), "outcome":"ok", "nproblems": n, "problems": probs})
 }
